@@ -306,9 +306,10 @@ func ruleC18CaseExact(c *Ctx) {
 				c.R.Bad(rule, construct, c.pos(call), "a json.Decoder decodes the caller's document into a struct with JSON-named fields: encoding/json matches keys case-insensitively")
 				return
 			}
-			srcs := traceSources(data)
+			srcs := traceSourcesDeep(data)
 			var fromParam, fromMarshal bool
 			var marshalArgs []ssa.Value
+			marshalFn := map[ssa.Value]*ssa.Function{}
 			for _, s := range srcs {
 				switch x := s.(type) {
 				case *ssa.Parameter:
@@ -317,6 +318,7 @@ func ruleC18CaseExact(c *Ctx) {
 					if mc, ok := x.Tuple.(*ssa.Call); ok && core.CalleeKey(&mc.Call) == "encoding/json.Marshal" && x.Index == 0 {
 						fromMarshal = true
 						marshalArgs = append(marshalArgs, peelIface(mc.Call.Args[0]))
+						marshalFn[peelIface(mc.Call.Args[0])] = mc.Parent()
 					} else {
 						fromParam = fromParam || false
 					}
@@ -329,7 +331,7 @@ func ruleC18CaseExact(c *Ctx) {
 			// the re-encoded map must be filtered by exact membership in a name set
 			filtered := false
 			for _, ma := range marshalArgs {
-				if c.mapFilteredByNameSet(fn, ma) {
+				if c.mapFilteredByNameSet(marshalFn[ma], ma) {
 					filtered = true
 				}
 			}
@@ -440,7 +442,7 @@ func (c *Ctx) mapFilteredByNameSet(fn *ssa.Function, m ssa.Value) bool {
 			if !fi.PostDominates(call.Block(), notFound) {
 				continue
 			}
-			for _, src := range traceSources(lk.X) {
+			for _, src := range traceSourcesDeep(lk.X) {
 				if sc, ok := src.(*ssa.Call); ok {
 					if callee := sc.Call.StaticCallee(); callee != nil && c.P.InPkg(callee) {
 						found = true
